@@ -29,7 +29,9 @@ import (
 	"com.tuntun.rangers/node/src/consensus/model"
 	"com.tuntun.rangers/node/src/consensus/net"
 	"com.tuntun.rangers/node/src/core"
+	middleware_pb "com.tuntun.rangers/node/src/middleware/pb"
 	"com.tuntun.rangers/node/src/middleware/types"
+	"github.com/golang/protobuf/proto"
 
 	"verifharness/env"
 	"verifharness/mon"
@@ -127,6 +129,9 @@ type Case struct {
 	// ones before the node has verified the proposal (parked under the block hash, replayed when
 	// the party takes the block hash as id), the others afterwards.
 	Proc bool `json:"proc,omitempty"`
+	// Wire: every message is encoded as senders encode it and passed through the node's wire decoder
+	// (net.UnMarshalConsensusVerifyMessage), so that it carries the message id the node derives
+	Wire bool `json:"wire,omitempty"`
 }
 
 type group struct {
@@ -328,6 +333,20 @@ func runCase(r *mon.Run, g *group, c Case, rng *rand.Rand, ns *netStub) {
 		}
 		cvm.SignInfo = model.MakeSignInfo(dataHash, blockSig, id, common.ConsensusVersion)
 		cvm.RandomSign = beacon
+		if c.Wire {
+			// the message as it comes out of the node's own wire decoder (its message id is what the
+			// decoder derives from the bytes): encoded as the senders encode it, decoded by the node
+			version := cvm.SignInfo.GetVersion()
+			pbm := &middleware_pb.ConsensusVerifyMessage{BlockHash: cvm.BlockHash.Bytes(), RandomSign: cvm.RandomSign.Serialize(),
+				Sign: &middleware_pb.SignData{DataHash: cvm.SignInfo.GetDataHash().Bytes(), DataSign: blockSig.Serialize(), SignMember: id.Serialize(), Version: &version}}
+			if b, err := proto.Marshal(pbm); err == nil {
+				var dec *model.ConsensusVerifyMessage
+				if !r.Guard("C15:wire-decode", c, func() { dec, err = net.UnMarshalConsensusVerifyMessage(b) }) && err == nil && dec != nil {
+					r.Count("messages_through_the_wire_decoder", 1)
+					return dec
+				}
+			}
+		}
 		return cvm
 	}
 
@@ -570,6 +589,16 @@ func genCase(rng *rand.Rand, n, k, seq int) Case {
 	}
 	// a fifth of the cases start without one member's sign public key (learnt from the
 	// member's announcement during the case); in half of those somebody squats on that id
+	// a third of the cases: somebody sends junk under an honest member's id (and this block's hash)
+	// BEFORE that member's own share arrives
+	if rng.Intn(3) == 0 {
+		for _, m := range msgs {
+			if m.Class == "honest" {
+				msgs = append([]Msg{{From: m.From, Class: "garbage", Aux: (m.From + 1) % n}}, msgs...)
+				break
+			}
+		}
+	}
 	var clean []int // members that send nothing but honest / duplicate messages
 	for i := 0; i < n; i++ {
 		ok := true
@@ -598,6 +627,7 @@ func genCase(rng *rand.Rand, n, k, seq int) Case {
 	if rng.Intn(4) == 0 {
 		c.Future = 1 + rng.Intn(len(msgs))
 	}
+	c.Wire = rng.Intn(2) == 0
 	// a third of the cases enter through the Processor (parked / direct verify messages)
 	if rng.Intn(3) == 0 {
 		c.Proc = true
@@ -672,6 +702,7 @@ func child(args []string) {
 	wd, _ := os.Getwd()
 	defer os.RemoveAll(wd)
 	env.BootServices(env.Forks{})
+	net.VerifInitLogger()
 	store := access.VerifNewJoinedGroupStorage(&jgChain{m: map[string][]byte{}})
 	ns := &netStub{}
 	rng := r.Rand("c15-group", n, from)
